@@ -14,7 +14,7 @@ RULE = ('cases: 1-4 named inputs, each a scalar or a unique-key table over 1 or 
         'floats / None so that overlap, disjointness and emptiness all occur; 1 vs 1.0 across tables), value column named after the input, '
         '"data", or a single other column, or with extra columns; any subset of inputs named in defaults (values 0-8 or None); previously '
         'computed values supplied as a data table over any keys, expiry absent / scalar / table with cells {2000-01-01, 2999-01-01, None} '
-        '(so the wall clock is irrelevant); 40% of the cases go through the dict-output path: f declared with 1-3 named outputs and returning a dict, one cache table per output, each supplied or not; an exhaustive stream over all overlap patterns of two tables on 3 keys x defaults x expiry '
+        '(so the wall clock is irrelevant); scalar inputs are None / ints / LIST- or TUPLE-valued (length 0-3 or exactly the number of rows); defaults= is spelled None / {} / {name: v} and f has python keyword defaults on some parameters; streams with the same table OBJECT passed for two parameters and with a second call on the same instance reusing the tables under other parameter names; after every call every input table must be unchanged (columns, order, identity of each cell); 40% of the cases go through the dict-output path: f declared with 1-3 named outputs and returning a dict, one cache table per output, each supplied or not; an exhaustive stream over all overlap patterns of two tables on 3 keys x defaults x expiry '
         'assignments. f records (key, arguments) of every call and returns the decimal digits of its arguments (output i: + 10000 i). Compared inside Coq: the '
         'returned scalar / None / table rows IN ORDER (key columns up to ==) and the multiset of calls. The oracle re-derives from the '
         'property text the expected key set, the order, each value and the exact set of calls. non-trivial = at least one table, and some key '
@@ -26,7 +26,7 @@ EXPLANATION = ('theorems C20_* (coq/props/C20.v) hold for every f, every list of
 TRUSTED = ['modelled, not verified: _item column selection, dictable * and / (their meaning is C02), dictable.sort, Dict.__getitem__(callable) / kwargs_support',
            'today is not modelled: expiries are 2000-01-01 / 2999-01-01 / None']
 ASSUMPTIONS = ['every table input carries all `on` columns and has unique keys; `on` has 1 or 2 columns, in any order, with names before / between / after the value column names; "sorted by key" = lexicographic by cmp in the order of `on`',
-               'no renames, constant defaults, if_none=False, output_is_input=True, include_inputs=False; both a plain function (_value_output) and a function with .output (_dict_output)',
+               'with defaults=None f\'s own keyword defaults are the join defaults (documented), with a dict ({} included) only its entries; input tables must come back unchanged except the column renames= copies into the caller\'s table; constant defaults, if_none=False, output_is_input=True, include_inputs=False; both a plain function (_value_output) and a function with .output (_dict_output)',
                'when the join is empty the call returns the supplied data (or None) instead of an empty table: observed and modelled, not judged by the oracle']
 EXHAUSTIVE = {'quick': False, 'thorough': False}
 LEVEL_TEXT = ('machine-checked Coq theorems (C20_*, every f, any number of inputs, any key sets) about the model of perdictable: pass-through, key set of the '
@@ -44,14 +44,50 @@ def expv(e):
     return dt(0) + datetime.timedelta(microseconds=-1 if e == 'past2' else 1)
 
 # ------------------------------------------------------------------ Coq side
-def coq_pv(v): return 'VNone' if v is None else '(VInt (%d))' % v
+def norm(v):
+    """a value of the case (JSON) or of the implementation -> None | int | ('list', (..)) | ('tuple', (..))"""
+    if isinstance(v, dict): return ('list', tuple(v['list'])) if 'list' in v else ('tuple', tuple(v['tuple']))
+    if isinstance(v, list): return ('list', tuple(int(e) for e in v))
+    if isinstance(v, tuple) and not (len(v) == 2 and v[0] in ('list', 'tuple') and isinstance(v[1], tuple)): return ('tuple', tuple(int(e) for e in v))
+    return v
+def py_pv(v):
+    v = norm(v)
+    if isinstance(v, tuple): return list(v[1]) if v[0] == 'list' else tuple(v[1])
+    return v
+def coq_pv(v):
+    v = norm(v)
+    if v is None: return 'VNone'
+    if isinstance(v, tuple): return '(VList %s [%s])' % ('true' if v[0] == 'tuple' else 'false', '; '.join('(%d)' % e for e in v[1]))
+    return '(VInt (%d))' % v
+def eff_default(case, a):
+    """the default join gives input a: the entry of defaults= when a dict is passed ({} included), else f's own keyword default. -> {'v': value} | None"""
+    mode = case.get('defaults_mode') or ('dict' if any('default' in b for b in case['args']) else 'empty' if case.get('defaults_given') else 'none')
+    if mode == 'dict': return a.get('default')
+    if mode == 'empty': return None
+    return a.get('pydefault')
+def resolved(case):
+    """'same' arguments (the SAME table object passed again under another name) spelled out as tables"""
+    if not any(a['kind'] == 'same' for a in case['args']): return case
+    byname = {a['name']: a for a in case['args']}
+    args = [dict(a, kind='table', rows=byname[a['ref']]['rows'], layout=byname[a['ref']].get('layout', 'named'), _same=a['ref']) if a['kind'] == 'same' else a for a in case['args']]
+    return dict(case, args=args)
+def second_case(case):
+    """the second of two consecutive calls: table parameter n now receives the table object the first call passed as again[n]"""
+    byname = {a['name']: a for a in case['args']}
+    args = [dict(a, rows=byname[case['again'][a['name']]]['rows'], layout=byname[case['again'][a['name']]].get('layout', 'named')) if a['name'] in case['again'] else a for a in case['args']]
+    c2 = dict(case, args=args); c2.pop('again')
+    return c2
 def coq_key(k): return '[' + '; '.join(coq_cell(c) for c in k) + ']'
 def coq_rows(rows): return '[%s]' % '; '.join('(%s, %s)' % (coq_key(k), coq_pv(v)) for k, v in rows)
-def coq_runner(case): return 'run_pjoin' if case.get('kind') == 'pjoin' else 'run_perdictN' if case.get('outputs') else 'run_perdict'
+def coq_runner(case): return 'run_pjoin' if case.get('kind') == 'pjoin' else 'run_perdictN' if case.get('outputs') else 'run_perdict2' if case.get('again') else 'run_perdict'
 def coq_case(case):
+    if case.get('again'):
+        return '(%s, %s)' % (coq_case(dict(case, again=None)), coq_case(second_case(resolved(case))))
+    case = resolved(case)
     args = []
     for a in case['args']:
-        d = 'None' if 'default' not in a else '(Some %s)' % coq_pv(a['default']['v'])
+        ed = eff_default(case, a)
+        d = 'None' if ed is None else '(Some %s)' % coq_pv(ed['v'])
         if a['kind'] == 'scalar':
             args.append('(mkArg (Scalar %s) %s)' % (coq_pv(a['v']), d))
         else:
@@ -88,7 +124,11 @@ def impl_setup():
     from pyg_base import dictable, perdictable
     from pyg_base._perdictable import join as pjoin
 
-def digit(v): return 9 if v is None else v
+def digit(v):
+    v = norm(v)
+    if v is None: return 9
+    if isinstance(v, tuple): return 20 + 3 * len(v[1]) + sum(v[1]) + (1 if v[0] == 'tuple' else 0)
+    return v
 def fcode(vals):
     r = 0
     for v in reversed(vals): r = digit(v) + 10 * r
@@ -111,7 +151,9 @@ def build_inputs(case):
         n = a['name']
         if 'default' in a: defaults[n] = a['default']['v']
         if a['kind'] == 'scalar':
-            inputs[n] = a['v']
+            inputs[n] = py_pv(a['v'])
+        elif a.get('_same'):
+            inputs[n] = None                         # filled below: the very same table object under a second parameter name
         else:
             lay = a.get('layout', 'named')
             vals = [v for _, v in a['rows']]
@@ -122,6 +164,8 @@ def build_inputs(case):
             elif lay == 'renamed': t = mk_table(on, a['rows'], 'val_' + n, vals, {'zz1': 77}, order=o); renames[n] = 'val_' + n
             else: t = mk_table(on, a['rows'], n, vals, {'zz1': 77, 'zz2': 'q'}, order=o)
             inputs[n] = t
+    for a in case['args']:
+        if a.get('_same'): inputs[a['name']] = inputs[a['_same']]
     for o, c in (cache_list(case) if case.get('outputs') else []):
         if c is not None:
             lay = c.get('layout', 'named')
@@ -133,13 +177,17 @@ def build_inputs(case):
     if x is not None:
         if 'scalar' in x: inputs['expiry'] = expv(x['scalar'])
         else: inputs['expiry'] = mk_table(on, x['rows'], x.get('layout', 'data'), [expv(e) for _, e in x['rows']], order=x.get('order', 0))
-    return inputs, (defaults if (defaults or case.get('defaults_given')) else None), (renames or None)
+    mode = case.get('defaults_mode') or ('dict' if defaults else 'empty' if case.get('defaults_given') else 'none')
+    return inputs, (None if mode == 'none' else {} if mode == 'empty' else defaults), (renames or None)
 
 def obs_key(k): return [enc(c, False) for c in k]
 def obs_pv(v):
+    v = norm(v)
     if v is None: return 'None'
+    if isinstance(v, tuple): return [v[0], [int(e) for e in v[1]]]
     if isinstance(v, bool) or not isinstance(v, int): raise TypeError('value %r' % (v,))
     return int(v)
+def nargs(a): return [norm(v) for v in a]
 
 # ---- the oracle: straight from the property text
 def kcanon(k):
@@ -156,6 +204,7 @@ def pykey(k):
 
 def expected(case):
     """-> ('scalar', args) | ('table', [(key, args, runs, cached values per output)] sorted by key) from the property text"""
+    case = resolved(case)
     tables = [a for a in case['args'] if a['kind'] == 'table']
     cl = cache_list(case)
     cmaps = [({kcanon(pykey(k)): v for k, v in c['rows']} if c is not None else None) for _, c in cl]
@@ -172,7 +221,7 @@ def expected(case):
             for k, _ in c['rows']: keyobjs.setdefault(kcanon(pykey(k)), pykey(k))
     if xt is not None:
         for k, _ in x['rows']: keyobjs.setdefault(kcanon(pykey(k)), pykey(k))
-    inner = [a for a in tables if 'default' not in a]
+    inner = [a for a in tables if eff_default(case, a) is None]
     keys = [c for c in keyobjs if all(c in maps[a['name']] for a in inner)]       # present in every table input without a default
     keys.sort(key=lambda c: korder(keyobjs[c]))
     all_supplied = all(m is not None for m in cmaps)      # a previously computed value is supplied for every output
@@ -182,7 +231,7 @@ def expected(case):
         for a in case['args']:
             if a['kind'] == 'scalar': args.append(a['v'])
             elif c in maps[a['name']]: args.append(maps[a['name']][c])
-            else: args.append(a['default']['v'])
+            else: args.append(eff_default(case, a)['v'])
         if x is None: e = 'none'
         elif 'scalar' in x: e = x['scalar']
         else: e = xt.get(c, 'none')
@@ -207,7 +256,7 @@ def impl_pjoin(case, inputs, defaults, renames):
     obs = ['pjoin', [[obs_key(k), [obs_pv(v) for v in a]] for k, a in got]]
     viol = None
     if kind == 'scalar':
-        if [a for _, a in got] != [exp]: viol = 'all inputs are scalars: expected the single row %s, got %s' % (exp, got)
+        if [nargs(a) for _, a in got] != [nargs(exp)]: viol = 'all inputs are scalars: expected the single row %s, got %s' % (exp, got)
     else:
         gk = [kcanon(k) for k, _ in got]; ek = [c for c, _, _, _ in exp]
         if sorted(gk, key=repr) != sorted(ek, key=repr):
@@ -216,13 +265,31 @@ def impl_pjoin(case, inputs, defaults, renames):
             viol = 'join rows are not sorted by key: %s' % gk
         else:
             for (c, args, _, _), (k, a) in zip(exp, got):
-                if a != args: viol = 'join row %s holds %s, expected %s (table value, else default, scalars broadcast)' % (k, a, args); break
+                if nargs(a) != nargs(args): viol = 'join row %s holds %s, expected %s (table value, else default, scalars broadcast)' % (k, a, args); break
     return {'status': 'ok', 'obs': obs, 'viol': viol}
 
+def snapshot(inputs):
+    return {n: [(c, list(v)) for c, v in t.items()] for n, t in inputs.items() if isinstance(t, dictable)}
+def modified(inputs, snap, exempt=()):
+    """names of the input tables that are no longer what the caller passed (columns, order, identity of every cell)"""
+    bad = []
+    for n, cols in snap.items():
+        now = [(c, v) for c, v in inputs[n].items()]
+        same = len(now) == len(cols) and all(c == c0 and len(v) == len(v0) and all(a is b for a, b in zip(v, v0)) for (c, v), (c0, v0) in zip(now, cols))
+        if not same and n not in exempt: bad.append((n, [c for c, _ in cols], [c for c, _ in now]))
+    return bad
+
 def impl(case):
+    case = resolved(case)
     inputs, defaults, renames = build_inputs(case)
+    snap = snapshot(inputs)
+    exempt = [a['name'] for a in case['args'] if a.get('layout') == 'renamed']      # renames= copies the named column into the caller's table (documented)
+    exempt += [a['name'] for a in case['args'] if a.get('_same') and any(b['name'] == a['_same'] and b.get('layout') == 'renamed' for b in case['args'])]
     if case.get('kind') == 'pjoin':
-        return impl_pjoin(case, inputs, defaults, renames)
+        res = impl_pjoin(case, inputs, defaults, renames)
+        bad = modified(inputs, snap, exempt)
+        if bad and not res['viol']: res['viol'] = 'join modified the input table(s) it was given: %s' % bad
+        return res
     names = [a['name'] for a in case['args']]
     outs = case.get('outputs')
     on = case['on']
@@ -231,7 +298,9 @@ def impl(case):
         calls.append((key, list(args)))
         v = fvals(case, args)
         return dict(zip(outs, v)) if outs else v[0]
-    src = 'lambda %s: rec((%s), (%s,))' % (', '.join(names + ['%s=None' % c for c in on]), ''.join(c + ',' for c in on), ', '.join(names))
+    plain = [n for n in names if not any(a['name'] == n and 'pydefault' in a for a in case['args'])]
+    withd = [(a['name'], a['pydefault']['v']) for a in case['args'] if 'pydefault' in a]        # f's own keyword defaults
+    src = 'lambda %s: rec((%s), (%s,))' % (', '.join(plain + ['%s=%r' % nd for nd in withd] + ['%s=None' % c for c in on]), ''.join(c + ',' for c in on), ', '.join(names))
     f = eval(src, {'rec': rec})
     if outs: f.output = list(outs)          # a function declared with named outputs: handled by _dict_output
     p = perdictable(f, on=(on[0] if case.get('on_str') and len(on) == 1 else list(on)), defaults=defaults, renames=renames)
@@ -240,10 +309,30 @@ def impl(case):
     missing = [n for n in names + ['expiry'] + (list(outs) if outs else ['data']) if n not in spec_args]
     if missing:
         return {'status': 'ok', 'obs': ['ERR', 'signature'], 'viol': 'the lifted signature %s lacks %s' % (spec_args, missing)}
-    try:
-        r = p(**inputs)
-    except Exception as e:
-        return {'status': err_name(e), 'obs': ['ERR', err_name(e)], 'viol': 'perdictable raised %s: %s' % (type(e).__name__, str(e)[:150])}
+    rounds = [(dict(case, again=None), inputs)]
+    if case.get('again'):
+        inputs2 = dict(inputs)
+        for n, src_name in case['again'].items(): inputs2[n] = inputs[src_name]      # the same objects under other parameter names
+        rounds.append((second_case(case), inputs2))
+    results = []
+    for rcase, rin in rounds:
+        del calls[:]
+        try:
+            r = p(**rin)
+        except Exception as e:
+            return {'status': err_name(e), 'obs': ['ERR', err_name(e)], 'viol': 'perdictable raised %s: %s (call %d)' % (type(e).__name__, str(e)[:150], len(results) + 1)}
+        res = judge(rcase, r, rin, list(calls))
+        bad = modified(inputs, snap, exempt)
+        if bad and not res['viol']: res['viol'] = 'the call modified the input table(s) it was given (columns before / after): %s' % bad
+        results.append(res)
+        if res['viol'] or res['obs'][0] == 'ERR': break
+    if len(rounds) == 1 or results[-1]['viol'] or results[-1]['obs'][0] == 'ERR':
+        return results[-1] if len(rounds) == 1 or len(results) == 1 else dict(results[-1], viol='second call (tables reused under other parameter names): ' + str(results[-1]['viol']))
+    return {'status': 'ok', 'obs': [r['obs'] for r in results], 'viol': None}
+
+def judge(case, r, inputs, calls):
+    """observation and oracle verdict for one call"""
+    outs = case.get('outputs'); on = case['on']
     kind, exp = expected(case)
     case_scalar = kind == 'scalar'
     def call_key(k):      # the key columns f saw (None when the row has no key column: the scalar call)
@@ -294,7 +383,7 @@ def impl(case):
     if kind == 'scalar':
         if res != scalar_res:
             viol = 'all inputs are scalars: expected f(...) = %s itself, got %s' % (scalar_res, res)
-        elif [a for _, a in calls] != [exp]:
+        elif [nargs(a) for _, a in calls] != [nargs(exp)]:
             viol = 'all inputs are scalars: f must be evaluated once on them, calls were %s' % calls
     elif not exp:
         if calls: viol = 'no key is common to the inputs, yet f was called: %s' % calls
@@ -316,7 +405,7 @@ def impl(case):
                     n = len(by_key.get(c, []))
                     if runs:
                         if n != 1: viol = 'row %s must be computed exactly once, f was called %d times' % (k, n); break
-                        if by_key[c][0] != args: viol = 'row %s: f called with %s, expected %s' % (k, by_key[c][0], args); break
+                        if nargs(by_key[c][0]) != nargs(args): viol = 'row %s: f called with %s, expected %s' % (k, by_key[c][0], args); break
                         if v != fvals(case, args): viol = 'row %s: value %s, expected f%s = %s' % (k, v, tuple(args), fvals(case, args)); break
                     else:
                         if n: viol = 'row %s has an expiry in the past: it must keep its value, but f was called %d times' % (k, n); break
@@ -334,15 +423,17 @@ def nontrivial(case, result):
     try: kind, exp = expected(case)
     except Exception: return False
     if kind == 'scalar': return False
+    case = resolved(case)
     tables = [a for a in case['args'] if a['kind'] == 'table']
     allk = {kcanon(pykey(k)) for a in tables for k, _ in a['rows']}
     keys = {c for c, _, _, _ in exp}
     dropped = bool(allk - keys)
-    defaulted = any(c not in {kcanon(pykey(k)) for k, _ in a['rows']} for a in tables if 'default' in a for c in keys)
+    defaulted = any(c not in {kcanon(pykey(k)) for k, _ in a['rows']} for a in tables if eff_default(case, a) is not None for c in keys)
     kept = any(not r for _, _, r, _ in exp)
     return bool(exp) and (dropped or defaulted or kept)
 def shape(case):
-    t = sum(1 for a in case['args'] if a['kind'] == 'table'); d = sum(1 for a in case['args'] if 'default' in a)
+    case = resolved(case)
+    t = sum(1 for a in case['args'] if a['kind'] == 'table'); d = sum(1 for a in case['args'] if eff_default(case, a) is not None)
     x = case['expiry']
     if case.get('outputs'):
         cl = cache_list(case)
@@ -388,8 +479,63 @@ def rand_rows(rng, uni, val):
     return [[key_variant(rng, k), val(rng)] for k in ks]
 def rand_pv(rng): return rng.choice([None, 0, 1, 2, 3, 4, 5, 6, 7, 8])
 
+def rand_seq(rng, n=None):
+    n = rng.choice([0, 1, 2, 3]) if n is None else n
+    return {rng.choice(['list', 'tuple']): [rng.randrange(6) for _ in range(n)]}
+
+def decorate(rng, case, force=None):
+    """the kinds of call the plain stream lacks: list / tuple valued scalars (also of exactly the row count), the defaults= spellings
+    None / {} / {name: v} with and without python keyword defaults of f, the same table object under two parameter names, and a second
+    call that reuses the tables under other parameter names"""
+    args = case['args']
+    # ---- defaults= spelling and f's own keyword defaults
+    for a in args:
+        if rng.random() < 0.25: a['pydefault'] = {'v': rand_pv(rng)}
+    explicit = any('default' in a for a in args)
+    case['defaults_mode'] = 'dict' if explicit else rng.choice(['none', 'none', 'empty'])
+    if force == 'defaults':
+        t = [a for a in args if a['kind'] == 'table']
+        if t:
+            t[0]['pydefault'] = {'v': rand_pv(rng)}; [a.pop('default', None) for a in args]
+            case['defaults_mode'] = rng.choice(['none', 'empty', 'empty'])
+    # ---- the same table object passed for two parameters
+    tabs = [a for a in args if a['kind'] == 'table' and a.get('layout', 'named') in ('named', 'data', 'other')]
+    if tabs and len(args) >= 2 and (force == 'same' or rng.random() < 0.08):
+        src = tabs[0]
+        others = [a for a in args if a is not src]
+        o = rng.choice(others)
+        keep = {k: v for k, v in o.items() if k in ('name', 'default', 'pydefault')}
+        o.clear(); o.update(keep); o['kind'] = 'same'; o['ref'] = src['name']
+    # ---- a second call reusing the tables under other parameter names (plain function path only)
+    tabs = [a for a in args if a['kind'] == 'table']
+    if (force == 'again' or rng.random() < 0.1) and len(tabs) >= 2 and not case.get('outputs') and not any(a['kind'] == 'same' for a in args):
+        for a in tabs:
+            if a.get('layout', 'named') not in ('named', 'data', 'other'): a['layout'] = rng.choice(['named', 'data', 'other'])
+        names = [a['name'] for a in tabs]
+        case['again'] = {n: names[(i + 1) % len(names)] for i, n in enumerate(names)}
+    # ---- list / tuple valued scalars
+    sc = [a for a in args if a['kind'] == 'scalar']
+    if force == 'list' and not sc:
+        used = {a.get('ref') for a in args} | set((case.get('again') or {}))
+        cand = [a for a in args if a['kind'] == 'table' and a['name'] not in used]
+        if cand:
+            a = cand[-1]; nm = a['name']; a.clear(); a.update({'name': nm, 'kind': 'scalar', 'v': None}); sc = [a]
+    for a in sc:
+        if force == 'list' or rng.random() < 0.15:
+            a['v'] = rand_seq(rng)
+    if any(isinstance(a.get('v'), dict) for a in sc):
+        try:
+            kind, exp = expected(case)
+            nrows = len(exp) if kind == 'table' else 1
+        except Exception:
+            nrows = 2
+        for a in sc:
+            if isinstance(a.get('v'), dict) and rng.random() < 0.5:
+                a['v'] = rand_seq(rng, nrows)                  # as long as the table has rows: must still go whole to every row
+
 KEYNAMES = ['k', 'm', 'B', 'zk', 'aa', 'c9']      # before / between / after the value columns a b c d data expiry zz_*
 def rand_case(rng, stream='rand'):
+    force = stream if stream in ('list', 'defaults', 'same', 'again') else None
     nk = rng.choice([1, 1, 2, 2])
     on = rng.sample(KEYNAMES, nk)            # any order: 'sorted by key' = lexicographic in the order of `on`
     uni = universe(rng, nk)
@@ -412,7 +558,6 @@ def rand_case(rng, stream='rand'):
         case['expiry'] = {'rows': rand_rows(rng, uni, lambda g: g.choice(['past', 'past', 'future', 'none', 'past2', 'future2'])), 'layout': rng.choice(['data', 'expiry']), 'order': rng.choice([0, 1, 2])}
     elif r < 0.6:
         case['expiry'] = {'scalar': rng.choice(['past', 'future', 'none', 'past2', 'future2'])}
-    if rng.random() < 0.1: case['defaults_given'] = True
     if rng.random() < 0.4:
         # dict-output path: f declared with named outputs, one cache per output (each supplied or not)
         outs = rng.choice([['p'], ['p', 'q'], ['q', 'p'], ['p', 'q', 'r']])
@@ -423,10 +568,13 @@ def rand_case(rng, stream='rand'):
                 caches[o] = {'rows': rand_rows(rng, uni, lambda g, i=i: g.choice([None, 500 + i, 600 + i, 700 + i])),
                              'layout': rng.choice(['named', 'named', 'data', 'other']), 'order': rng.choice([0, 1, 2])}
         case['outputs'] = outs; case['caches'] = caches; case['data'] = None
+    decorate(rng, case, force)
     if nk == 1 and rng.random() < 0.3: case['on_str'] = True          # on='k' instead of on=['k']
     if rng.random() < 0.12:
         # join(inputs, on, renames, defaults) observed directly
-        case['kind'] = 'pjoin'; case['data'] = None; case['expiry'] = None; case.pop('outputs', None); case.pop('caches', None)
+        case['kind'] = 'pjoin'; case['data'] = None; case['expiry'] = None; case.pop('outputs', None); case.pop('caches', None); case.pop('again', None)
+        for a in case['args']: a.pop('pydefault', None)            # python defaults of f play no part in a direct join
+        if case['defaults_mode'] == 'none' and any('default' in a for a in case['args']): case['defaults_mode'] = 'dict'
     return case
 
 def large_case(rng):
@@ -473,8 +621,12 @@ def exhaustive():
 
 def gen_cases(rng, tier):
     q = tier == 'quick'
-    cases = [rand_case(rng) for _ in range(2500 if q else 30000)]
+    cases = [rand_case(rng) for _ in range(2000 if q else 30000)]
     ex = exhaustive()
+    for force, n in (('list', 200), ('defaults', 200), ('same', 120), ('again', 150)):
+        for _ in range(n if q else 10 * n):
+            c = rand_case(rng, force)
+            cases.append(c)
     cases.extend(rng.sample(ex, 600) if q else ex)
     cases.extend(large_case(rng) for _ in range(5 if q else 60))
     return cases
